@@ -27,6 +27,9 @@ CONSTANTS
   ErrCodes = {{"e1"}}
   Deviations = {dev}
   SharedCatchPrev = {scp}
+  AdvSet = {{}}
+  MaxTime = 0
+  Grid = {{0}}
 VIEW View
 INVARIANT RegressInv
 CHECK_DEADLOCK FALSE
